@@ -17,6 +17,10 @@
   (at `Deliver(p)`) and every job/access-version that can read an id `k` produces, the fact "launched only after
   `Deliver(p)`": no job can be launched before a producer that is inserted later.
 
+  Also here: `freshIds` (every id is inserted at most once; FontcProofs/SchedFresh.lean proves this static condition
+  implies freshness in every schedule) and `checkProgress` (a rank / resolver certificate check;
+  FontcProofs/SchedProgressStatic.lean proves an accepted script never reaches `unableToProceed`).
+
   Core Lean only.
 -/
 import FontcModel.Sched
@@ -93,6 +97,20 @@ def Script.addedIds (sc : Script) (q : Id) : List Id :=
   (sc.effects q).flatMap fun e => match e with
     | .add j => j.ids
     | _ => []
+
+/-- ids inserted by one `onDeliver` entry -/
+def entryIds (p : Id × List Effect) : List Id :=
+  p.2.flatMap fun e => match e with
+    | .add j => j.ids
+    | _ => []
+
+/-- Well-formedness of a script: every id is inserted at most once over the whole build
+    (ids of the initial jobs and of all spawned jobs, also-completes ids included, are pairwise distinct). -/
+def freshIds (sc : Script) : Bool :=
+  decide sc.initIds.Nodup &&
+  sc.onDeliver.all fun p =>
+    decide (entryIds p).Nodup && (entryIds p).all (fun x => !sc.initIds.contains x) &&
+    sc.onDeliver.all fun p' => p'.1 = p.1 || (entryIds p).all fun x => !(entryIds p').contains x
 
 /-! ### the rules -/
 
@@ -248,6 +266,125 @@ def checkScriptFull (sc : Script) : CheckResult :=
       | [] => "table not justified" }
 
 def checkScript (sc : Script) : Bool := (checkScriptFull sc).ok
+
+/-! ### progress: a verified acyclicity check
+
+  A certificate assigns a rank to every job id and a resolver to every job that starts with access `Unknown`.
+  `checkProgress` checks that every dependency of every access version points to lower ranks, that every `Unknown`
+  is resolved by the delivery of a lower-ranked job, and that spawned jobs have lower-ranked creators.
+  FontcProofs/SchedProgressStatic.lean proves: an accepted script never reaches `unableToProceed`, in any interleaving. -/
+
+structure ProgCert where
+  rk : List (Id × Nat)
+  res : List (Id × Id)
+
+def ProgCert.rkOf (c : ProgCert) (x : Id) : Nat :=
+  match c.rk.find? (fun p => p.1 = x) with
+  | some p => p.2
+  | none => 0
+
+def ProgCert.resOf (c : ProgCert) (x : Id) : Option Id := (c.res.find? (fun p => p.1 = x)).map (·.2)
+
+def Script.jobIds (sc : Script) : List Id := sc.jobs.map (·.id)
+
+def Script.allIds (sc : Script) : List Id := sc.jobs.flatMap Job.ids
+
+/-- does this effect resolve the `Unknown` access of `j` (rewrite it or complete the job)? -/
+def resolvesEff (j : Id) : Effect → Bool
+  | .rewrite i _ _ => i = j
+  | .skip i => i = j
+  | _ => false
+
+def Script.resolves (sc : Script) (q j : Id) : Bool := (sc.effects q).any (resolvesEff j)
+
+/-- every job added with access `Unknown` is resolved later in the same effect list, and by no other delivery -/
+def suffixOK (sc : Script) (c : Id) : List Effect → Bool
+  | [] => true
+  | e :: rest =>
+    (match e with
+     | .add k => k.reads ≠ .unknown ||
+        (rest.any (resolvesEff k.id) && sc.onDeliver.all fun p' => p'.1 = c || !(p'.2.any (resolvesEff k.id)))
+     | _ => true) && suffixOK sc c rest
+
+/-- all owners of `x` have a lower rank than `j` -/
+def ownersBelow (sc : Script) (c : ProgCert) (x j : Id) : Bool := (sc.owners x).all fun o => c.rkOf o < c.rkOf j
+
+def depBelow (sc : Script) (c : ProgCert) (j : Id) : Dep → Bool
+  | .specific x => ownersBelow sc c x j
+  | .variant d => sc.allIds.all fun x => x.disc ≠ d || ownersBelow sc c x j
+
+def accessBelow (sc : Script) (c : ProgCert) (j : Id) : Access → Bool
+  | .none => true
+  | .unknown => true
+  | .all => sc.allIds.all fun x => x = j || ownersBelow sc c x j
+  | .set ds => ds.all (depBelow sc c j)
+
+def checkProgress (sc : Script) (c : ProgCert) : Bool :=
+  decide (sc.onDeliver.map (·.1)).Nodup &&
+  sc.rewrites.all (fun p => p.2.2 ≠ .unknown) &&
+  sc.onDeliver.all (fun p => suffixOK sc p.1 p.2) &&
+  sc.jobs.all (fun o => o.also.all fun x => !(sc.jobIds.contains x)) &&
+  sc.onDeliver.all (fun p => p.2.all fun e => match e with
+    | .add k => c.rkOf p.1 < c.rkOf k.id && sc.jobIds.contains p.1 && (sc.skippers p.1).isEmpty
+    | _ => true) &&
+  sc.jobs.all (fun j => (sc.versions j.id).all (accessBelow sc c j.id)) &&
+  sc.jobs.all (fun j => !(sc.versions j.id).contains .unknown ||
+    match c.resOf j.id with
+    | some q => c.rkOf q < c.rkOf j.id && sc.jobIds.contains q && (sc.skippers q).isEmpty && sc.resolves q j.id
+    | none => false)
+
+/-- unverified certificate search: ranks by relaxation of the "must be lower" constraints -/
+def findCert (sc : Script) : ProgCert := Id.run do
+  let jobs := sc.jobs
+  let ids := (jobs.map (·.id)).toArray
+  let idx (x : Id) : Option Nat := ids.findIdx? (· = x)
+  -- resolvers: the first delivery that resolves the job
+  let mut res : List (Id × Id) := []
+  for j in jobs do
+    if (sc.versions j.id).contains .unknown then
+      match sc.onDeliver.find? (fun p => p.2.any (resolvesEff j.id)) with
+      | some p => res := (j.id, p.1) :: res
+      | none => pure ()
+  -- constraints (a, b): rank a < rank b
+  let mut cons : Array (Nat × Nat) := #[]
+  let ownersIdx (x : Id) : List Nat := (sc.owners x).filterMap idx
+  for j in jobs do
+    match idx j.id with
+    | none => pure ()
+    | some jb =>
+      for a in sc.versions j.id do
+        match a with
+        | .set ds =>
+          for d in ds do
+            match d with
+            | .specific x => for o in ownersIdx x do cons := cons.push (o, jb)
+            | .variant dd => for x in sc.allIds do
+                if x.disc = dd then for o in ownersIdx x do cons := cons.push (o, jb)
+        | .all => for x in sc.allIds do
+            if x ≠ j.id then for o in ownersIdx x do cons := cons.push (o, jb)
+        | _ => pure ()
+  for p in sc.onDeliver do
+    for e in p.2 do
+      match e with
+      | .add k =>
+        match idx p.1, idx k.id with
+        | some a, some b => cons := cons.push (a, b)
+        | _, _ => pure ()
+      | _ => pure ()
+  for (j, q) in res do
+    match idx q, idx j with
+    | some a, some b => cons := cons.push (a, b)
+    | _, _ => pure ()
+  let mut rk : Array Nat := Array.replicate ids.size 0
+  for _ in [0:ids.size + 1] do
+    let mut changed := false
+    for (a, b) in cons do
+      let ra := rk[a]!
+      if rk[b]! ≤ ra then
+        rk := rk.set! b (ra + 1)
+        changed := true
+    if !changed then break
+  return { rk := (ids.toList.zip rk.toList), res := res }
 
 /-! ### the static must-precede relation used for the recorded accesses -/
 
